@@ -16,22 +16,35 @@ class Compiled:
     pass
 
 
+class InternalCompilerError(Exception):
+    """the compiler died with something that is not an NMFUError (a C18 matter, not a verdict of the csem properties)"""
+
+
 def compile_program(nmfu, src, flags, name="p", path="p.nmfu"):
     """real front end + middle end + code generator. raises NMFUError subclasses for rejected programs."""
     PD = nmfu.ProgramData
     PD.load_commandline_flags(list(flags) + [path])
     PD.load_source(src)
     tree = nmfu.parser.parse(src, start="start")
-    pctx = nmfu.ParseCtx(tree)
-    pctx.parse()
-    dctx = nmfu.DfaCompileCtx(pctx)
-    dctx.compile()
-    cctx = nmfu.CodegenCtx(dctx, name)
+    try:
+        pctx = nmfu.ParseCtx(tree)
+        pctx.parse()
+        dctx = nmfu.DfaCompileCtx(pctx)
+        dctx.compile()
+        cctx = nmfu.CodegenCtx(dctx, name)
+        header = cctx.generate_header()
+        source = cctx.generate_source()
+    except nmfu.NMFUError:
+        raise
+    except RecursionError as e:
+        raise InternalCompilerError("RecursionError") from None
+    except Exception as e:
+        raise InternalCompilerError(f"{type(e).__name__}: {e}") from e
     c = Compiled()
     c.nmfu, c.src, c.flags, c.name = nmfu, src, list(flags), name
     c.pctx, c.dctx, c.cctx = pctx, dctx, cctx
-    c.header = cctx.generate_header()
-    c.source = cctx.generate_source()
+    c.header = header
+    c.source = source
     c.flagmap = {f.name: bool(v) for f, v in PD._flags.items()}
     c.options = {o.name: v for o, v in PD._options.items()}
     return c
@@ -529,7 +542,7 @@ class TV:
                         self.fail(fam, f"{t2}.hook{hi}.name", f"hook {hc[1]} called where {ha[1]} is prescribed", line, self.witness_from(hyp))
                         continue
                     self.prove(fam, f"{t2}.hook{hi}.arg", hyp, hc[2] == ha[2], f"hook {ha[1]} called with a different argument", line)
-                    self.compare_store(f"{t2}.hook{hi}.visible", hyp, hc[3], ha[3], fam)
+                    self.compare_store(f"{t2}.hook{hi}.visible", hyp, hc[3], ha[3], fam, fresh)
                     want_style = "global" if self.c.flagmap["HOOK_GLOBAL"] else "member"
                     if hc[4] != want_style:
                         self.fail("wellformed", f"{t2}.hook{hi}.style", f"hook called as {hc[4]} but options select {want_style}")
@@ -767,7 +780,11 @@ class TV:
                             arr = z3.Store(arr, j, z3.IntVal(cpt))
                         if o.str_null:
                             arr = z3.Store(arr, n, z3.IntVal(0))
+                    elif o.type == T.STR and o.str_null and not self.spec.may_be_unallocated(o):
+                        arr = z3.Store(arr, 0, z3.IntVal(0))
                     exp_st[("buf", o.name)] = arr
+                    if o.type == T.STR:
+                        exp_st[("tag", o.name)] = z3.IntVal(cexec.NULLTAG if (self.spec.may_be_unallocated(o) and o.default_value is None) else cexec.VALID)
                     exp_st[("m", o.name + "_counter")] = z3.IntVal(n)
                 else:
                     if o.default_value is not None:
@@ -977,7 +994,11 @@ def verify_termination(self):
                         m = self._model if self.check(pc) == "sat" else None
                         wit = self.default_witness(m) if m is not None else {}
                         wit.update({"cycle": cyc, "start_state": cyc[0]})
-                        verdict = ("refuted", f"non-consuming cycle through states {cyc} is a closed recurrence: feed never returns", wit)
+                        full = [vals0[("m", o.name + "_counter")] == self.spec.capacity(o) for o in self.c.cctx.state_object_spec if o.type in (T.STR, T.RAW)]
+                        oos = bool(full) and self.check(pc + [z3.Not(z3.Or(*full))]) == "unsat"
+                        if oos:
+                            tag = "feed/cycle.oos." + "-".join(map(str, cyc))
+                        verdict = ("refuted", f"non-consuming cycle through states {cyc} is a closed recurrence" + (" (only while an output buffer is full: out-of-space handling leads back to the append)" if oos else "") + ": feed never returns", wit)
                         break
                     # ranking: some buffer counter strictly increases (bounded by its capacity through Inv)
                     ranked = False
